@@ -713,7 +713,7 @@ def _run_assembled(run):
 CLEAR = re.compile(r"\x1b\[2J\x1b\[2;1H")
 
 
-def watch_history(ctx, res, cp, prop, h, length=5, stack=False, ext_sources=False):
+def watch_history(ctx, res, cp, prop, h, length=5, stack=False, ext_sources=False, symlinked=False):
     """Run `lace watch` on a file, rewrite it through a history of sources, compare each re-check
     with a fresh `lace check` of the same text."""
     import random
@@ -744,7 +744,16 @@ def watch_history(ctx, res, cp, prop, h, length=5, stack=False, ext_sources=Fals
     if length >= 6:
         hist[5] = "loop add r0 r0 #1\nbrz nowhere\nhalt\n"
     path = os.path.join(d, "w.asm")
-    _write(path, "halt\n")
+    if symlinked:
+        # the watched name is a symbolic link; versions alternate between two files and the link is
+        # pointed at the other one each time: what the name means is looked up at every re-check
+        targets = [os.path.join(d, "version_a.asm"), os.path.join(d, "version_b.asm")]
+        for t in targets:
+            _write(t, "halt\n")
+        os.symlink("version_a.asm", path)
+        old_mtime_steps = set()
+    else:
+        _write(path, "halt\n")
     exe = common.cli_bin(ctx)
     env = dict(common.ENV, NO_COLOR="1")
     # the log and the files for the fresh checks live OUTSIDE the watched directory: every write
@@ -766,7 +775,20 @@ def watch_history(ctx, res, cp, prop, h, length=5, stack=False, ext_sources=Fals
         segments = []
         for k, src in enumerate(hist):
             before = os.path.getsize(logpath)
-            if k in old_mtime_steps:
+            if symlinked:
+                t = targets[(k + 1) % 2]
+                _write(t, src)
+                time.sleep(0.7)
+                tmpl = os.path.join(side, "newlink")
+                if os.path.lexists(tmpl):
+                    os.remove(tmpl)
+                os.symlink(os.path.basename(t), tmpl)
+                os.replace(tmpl, path)
+                time.sleep(0.3)
+                before = os.path.getsize(logpath)
+                _write(t, src)
+                res.cls("watch_through_a_symlink_pointed_elsewhere")
+            elif k in old_mtime_steps:
                 tmp = os.path.join(side, "restored.asm")
                 _write(tmp, src)
                 os.utime(tmp, (946684800, 946684800))
@@ -1944,6 +1966,18 @@ def c18_cli(ctx, res):
             res.violate("C18/cli/flag-on-not-honoured/" + sub, "`lace %s ... -f stack` does not assemble and execute a program using the extension (exit %s)" % (sub, on.rc), detail)
         if off.rc == 0 or off.crashed or b"stack" not in (off.err + off.out):
             res.violate("C18/cli/flag-off-not-rejected/" + sub, "`lace %s` without the flag: exit %s, diagnostic naming the feature expected" % (sub, off.rc), detail)
+    # calls further than 255 words away, forwards and backwards (the field holds -512..511)
+    far = "and r0 r0 #0\nadd r0 r0 #5\ncall g\nputn\nhalt\nf add r0 r0 #1\nrets\n.blkw #%d\ng call f\nadd r0 r0 #2\nrets\n"
+    for gap in (240, 250, 300, 400, 500):
+        _write(os.path.join(d, "far%d.asm" % gap), far % gap)
+        for sub, extra in (("run", ["--minimal"]), ("debug", ["--minimal", "--command", "continue"])):
+            on = lace(ctx, [sub, "far%d.asm" % gap] + extra + ["-f", "stack"], cwd=d, stdin=b"")
+            res.evaluations += 1
+            res.cls("l2:extension_program_with_far_calls")
+            body, _h = program_output(on.out)
+            if on.rc != 0 or b"8" not in body:
+                res.violate("C18/cli/flag-on-not-honoured/far-call", "`lace %s -f stack` on a program whose calls reach %d words forwards and backwards: exit %s, output %r; with the flag it assembles and executes (prints 8)"
+                            % (sub, gap + 4, on.rc, body[-40:]), {"source": far % gap, "run": on.brief()})
     # opcode 0xD reached under the debugger without the flag: the VM stops with status 1 there too,
     # whatever command was driving it and whatever the script says afterwards
     for k, word in enumerate(("xD400", "xD000", "xDC01", "xD800")):
@@ -2017,7 +2051,7 @@ def c18_cli(ctx, res):
     watch_history(ctx, res, cp, "C18", 60, stack=True)
     watch_history(ctx, res, cp, "C18", 61, ext_sources=True)
     res.require(["l2:ext_program", "l2:plain_program", "l2:raw_0xD", "l2:plain_program_run", "l2:plain_program_run_r7_changed",
-                 "watch_recheck", "watch_recheck_with_stack_flag", "l2:extension_program_under:debug", "l2:plain_program_prints_registers", "l2:raw_0xD_under_debugger",
+                 "watch_recheck", "watch_recheck_with_stack_flag", "l2:extension_program_under:debug", "l2:extension_program_with_far_calls", "l2:plain_program_prints_registers", "l2:raw_0xD_under_debugger",
                  "l2:plain_program_at_top_of_user_memory", "l2:plain_program_with_0xD_data:lc3", "l2:extension_mnemonic_through_eval"], "L2")
 
 
